@@ -74,6 +74,44 @@ def gen_script(rng, segs, lim_ms, vectored, wb_bias=0.25, maxlen=7):
     return script
 
 
+def gen_chain(rng, segs, lim_ms):
+    """Vectored calls that go on for several kernel calls: each transfer completes the current segment
+    (or spills into later ones), retries in between, and a chosen ending."""
+    script = []
+    filled = 0
+    bounds = []
+    acc = 0
+    for l in segs:
+        acc += l
+        bounds.append(acc)
+    total = acc
+    steps = rng.randint(1, 4)
+    for _ in range(steps):
+        for _ in range(rng.choice([0, 0, 1, 1, 2, 3])):
+            script.append({"dt": str(_dt(rng, lim_ms) if rng.random() < 0.2 else 0),
+                           "r": rng.choice(["wouldblock", "eintr", "wouldblock"])})
+        nxt = [b for b in bounds if b > filled]
+        if not nxt:
+            break
+        m = nxt[0] - filled
+        if rng.random() < 0.5:
+            m += rng.randint(1, 4)
+        script.append({"dt": "0", "r": "moved", "n": m})
+        filled = min(total, filled + m)
+    end = rng.random()
+    if end < 0.25:
+        script.append({"dt": "0", "r": "moved", "n": 0})
+    elif end < 0.45:
+        e = _fail(rng)
+        e["dt"] = "0"
+        script.append(e)
+    elif end < 0.6 and lim_ms:
+        script.append({"dt": str(2 * lim_ms * 10**6), "r": "wouldblock"})
+    elif end < 0.75:
+        script.append({"dt": "0", "r": "moved", "n": 1})
+    return script
+
+
 def gen_case(rng, calls, nb_prob=0.2, wb_bias=0.25):
     call = rng.choice(calls)
     lim_ms = rng.choice(LIMITS_MS)
@@ -90,6 +128,8 @@ def gen_case(rng, calls, nb_prob=0.2, wb_bias=0.25):
                  else {"r": "wouldblock"})
         first["dt"] = str(_dt(rng, lim_ms))
         script = [first]
+    elif call in VEC and rng.random() < 0.4:
+        script = gen_chain(rng, segs, lim_ms)
     else:
         script = gen_script(rng, segs, lim_ms, call in VEC, wb_bias=wb_bias)
     nwait = sum(1 for e in script if e["r"] in ("wouldblock",) or (e["r"] == "fail" and e.get("n") in (11, 115, 114)))
